@@ -135,7 +135,7 @@ TEMPLATE_ATTRS = {"type", "default", "_unpack", "_generated", "_version", "__slo
                   "_desc"}
 
 
-def check_exec_source(src, defn, accepted, where):
+def check_exec_source(src, defn, accepted, where, extra_fields=(), extra_classes=()):
     if not isinstance(src, str):
         raise Violation("exec/non-text", "%s: exec received %r" % (where, type(src)))
     try:
@@ -146,8 +146,8 @@ def check_exec_source(src, defn, accepted, where):
                             "accepted: %r" % (where, src[:300]))
         return
     name, fields = defn
-    fnames = {n for _, n in fields if isinstance(n, str)} | set(RESERVED)
-    ok_names = TEMPLATE_NAMES | fnames | {"_field_" + n for n in fnames} | {str(name).replace("/", "_")}
+    fnames = {n for _, n in fields if isinstance(n, str)} | set(RESERVED) | set(extra_fields)
+    ok_names = TEMPLATE_NAMES | fnames | {"_field_" + n for n in fnames} | {str(name).replace("/", "_")} | set(extra_classes)
     ok_attrs = TEMPLATE_ATTRS | fnames
     if len(tree.body) != 1 or not isinstance(tree.body[0], ast.ClassDef):
         raise Violation("exec/extra-statements", "%s: generated module has %d top-level statements: %r"
@@ -258,7 +258,33 @@ def via_null_fields(defn, how):
         return p.unpack(json.dumps({"_type": "recorddescriptor", "_data": [name, None]}))
 
 
+def via_grouped(defn, how):
+    """The name of a grouped record becomes the name of its flat record type: it is a type name like any other."""
+    import datetime as _d
+
+    from flow.record import GroupedRecord, RecordDescriptor, RecordStreamReader
+
+    name, fields = defn
+    g = _d.datetime(2020, 1, 1, tzinfo=_d.timezone.utc)
+    member = RecordDescriptor("t/member", [tuple(f) for f in fields])
+    recs = [member(_generated=g), RecordDescriptor("t/other", [("varint", "zz_n")])(1, _generated=g)]
+    if how == "grouped-constructor":
+        grp = GroupedRecord(name, recs)
+    else:
+        m = refcodec.record_model(GroupedRecord("ok/name", recs))
+        data = refcodec.encode_stream([(m[0], name) + tuple(m[2:])])
+        out = list(RecordStreamReader(io.BytesIO(data)))
+        if len(out) != 1:
+            raise RuntimeError("stream channel yielded %d records" % len(out))
+        grp = out[0]
+    if grp.name != name:
+        raise RuntimeError("harness: grouped record is named %r" % (grp.name,))
+    return grp
+
+
 def deliver(channel, defn, tmp):
+    if channel in ("grouped-constructor", "grouped-stream"):
+        return via_grouped(defn, channel)
     if channel in ("constructor-none", "stream-nil-fields", "json-null-fields"):
         return via_null_fields(defn, channel)
     if channel == "constructor":
@@ -309,7 +335,11 @@ def check_definition(case, ctx):
         raise RuntimeError("harness: " + str(res.exc))
     # monitors first: nothing from the definition may be executed or imported, accepted or not
     for src in EXEC_LOG:
-        check_exec_source(src, defn, res.ok, where)
+        if channel.startswith("grouped-"):
+            # the harness' own member types (t/member, t/other with field zz_n) are generated inside the delivery
+            check_exec_source(src, defn, res.ok, where, extra_fields=("zz_n",), extra_classes=("t_member", "t_other"))
+        else:
+            check_exec_source(src, defn, res.ok, where)
     for mod in IMPORT_LOG:
         if not ALLOWED_IMPORT.fullmatch(mod):
             raise Violation("import/outside-whitelist", "%s: import_module(%r)" % (where, mod))
@@ -331,6 +361,12 @@ def check_definition(case, ctx):
             raise Violation("%s/valid-rejected" % channel, "%s: valid definition rejected with %r" % (where, res),
                             detail=res.type)
         ctx.cls("inside:rejected-python-keyword")
+        return
+    if channel.startswith("grouped-"):
+        grp = res.value
+        flat = impl(lambda: (grp._desc.name, [n for _, n in grp._desc.get_field_tuples()]))
+        if not flat.ok or flat.value[0] != defn[0]:
+            raise Violation("accepted/grouped-flat-type", "%s: flat record type of the accepted group: %r" % (where, flat))
         return
     desc = res.value
     # shape of the accepted definition
@@ -495,6 +531,19 @@ def hostile_with_keyword_cases(tier):
     return cases
 
 
+def grouped_name_cases(tier):
+    """Type names (valid, hostile, payloads) given as the name of a grouped record, through the constructor and
+    through a crafted grouped-record frame."""
+    names = [s_ for s_ in short_strings(2)]
+    names += PAYLOADS[:12] + ["t\u00e9st", "\u0430dmin/user", "_hidden", "test/", "/test", "a//b", "a b", "ok/name", "Record", "valid",
+                              "a" * 10**5, "a/1b", "a/_b", "demo/__class__", "x\n<t/forged y=1>", "class", "from/import"]
+    cases = []
+    for n in names:
+        for ch in ("grouped-constructor", "grouped-stream"):
+            cases.append({"name": n, "fields": [("string", "ok")], "channel": ch, "role": "grouped-name"})
+    return cases
+
+
 def exhaustive_cases(tier):
     cases = []
     for role in ("type-name", "field-name", "field-type"):
@@ -585,6 +634,7 @@ def parts(tier):
         Part("template-identifiers", check_definition, cases=template_name_cases, exhaustive=True),
         Part("reserved-field-positions", check_definition, cases=reserved_position_cases, exhaustive=True),
         Part("null-field-list", check_definition, cases=null_field_list_cases, exhaustive=True),
+        Part("grouped-record-names", check_definition, cases=grouped_name_cases, exhaustive=True),
         Part("hostile-with-keyword-fields", check_definition, cases=hostile_with_keyword_cases, exhaustive=True),
         Part("generated", check_definition, strategy=generated_case(), examples=(250, 20000)),
     ]
